@@ -55,16 +55,37 @@ def has_ties(cfg, pred, ref):
     return cfg.get("matcher") == "merge" and len(ok) != len({c[1] for c in ok})   # merge order can depend on ties of combined scores
 
 
+PENDING = []
+
+
 def one_case(ctx, cfg, pred, ref, tag):
-    out = impl.evaluate(impl.make_evaluator(cfg), pred.copy(), ref.copy())
+    """queue a case; flush() evaluates implementation and (batched) model"""
+    PENDING.append((cfg, pred, ref, tag))
+
+
+def flush(ctx):
+    items, metas = [], []
+    for cfg, pred, ref, tag in PENDING:
+        out = impl.evaluate(impl.make_evaluator(cfg), pred.copy(), ref.copy())
+        try:
+            ip, ir = (pred, ref) if cfg["input"] != "semantic" else pipeline.approximate(pred, ref, cfg.get("backend"))
+            ties = has_ties(cfg, ip, ir)
+        except Exception as e:  # noqa
+            if not isinstance(out, tuple):
+                ctx.disagree("Pipeline (harness error)", {"cfg": cfg, "pred": pred, "ref": ref, "error": repr(e)[:200]})
+            else:
+                ctx.count({"cfg": cfg, "rejected": out[1]}, False)
+            continue
+        items.append((cfg, ip, ir))
+        metas.append((cfg, pred, ref, tag, out, ip, ir, ties))
+    PENDING.clear()
+    mrs = pipeline.model_results(items)
+    for (cfg, pred, ref, tag, out, ip, ir, ties), mr in zip(metas, mrs):
+        judge(ctx, cfg, pred, ref, tag, out, ip, ir, ties, mr)
+
+
+def judge(ctx, cfg, pred, ref, tag, out, ip, ir, ties, mr):
     case = {"cfg": cfg, "pred": pred, "ref": ref}
-    try:
-        ip, ir = (pred, ref) if cfg["input"] != "semantic" else pipeline.approximate(pred, ref, cfg.get("backend"))
-        mr = pipeline.model_result(cfg, ip, ir)
-        ties = has_ties(cfg, ip, ir)
-    except Exception as e:  # noqa
-        ctx.disagree("Pipeline (harness error)", {**case, "error": repr(e)[:200]})
-        return
     ncand = len({(int(a), int(b)) for a, b in zip(ir.ravel().tolist(), ip.ravel().tolist()) if a and b})
     ctx.count({"cfg": cfg, "pred": pred.tolist(), "ref": ref.tolist()}, ncand >= 1)
     ctx.bump(f"{tag}/{cfg['input']}/{cfg.get('mmetric', '-')}/{pred.ndim}d")
@@ -121,6 +142,12 @@ def run(ctx):
             p, r = np.where(p != 0, 1 + (p % k), 0).astype(rng.choice(["uint8", "int16", "int64"])), np.where(r != 0, 1 + (r % k), 0)
             r = r.astype(p.dtype)
         one_case(ctx, gen_cfg(rng, it), p, r, "random")
+    flush(ctx)
+    tr = pipeline.TRIPLES[:: max(1, len(pipeline.TRIPLES) // 50)][:60]
+    n, bad = coq_crosscheck("C01", tr)
+    ctx.crosschecked = n
+    for b in bad:
+        ctx.disagree("extraction-vs-vm_compute", tr[b])
     ctx.exhaustive = full
 
 
@@ -130,6 +157,7 @@ def replay(path):
     pred, ref = common.arr_from_json(d["pred"]), common.arr_from_json(d["ref"])
     ctx = common.Ctx("C01", "quick", 0)
     one_case(ctx, d["cfg"], pred, ref, "replay")
+    flush(ctx)
     out = impl.evaluate(impl.make_evaluator(d["cfg"]), pred, ref)
     print("implementation:", out if isinstance(out, tuple) else common.jsonable(impl.canon_result(out["ungrouped"][0])))
     for w, r in ctx.violations:
